@@ -326,8 +326,12 @@ impl<T: FftNum> FftPlannerScalar<T> {
     fn build_fft(&mut self, recipe: &Recipe, direction: FftDirection) -> Arc<dyn Fft<T>> {
         let len = recipe.len();
         if let Some(instance) = self.algorithm_cache.get(len, direction) {
+            #[cfg(feature = "verif_hooks")]
+            crate::verif_hooks::probe(4);
             instance
         } else {
+            #[cfg(feature = "verif_hooks")]
+            crate::verif_hooks::probe(5);
             let fft = self.build_new_fft(recipe, direction);
             self.algorithm_cache.insert(&fft);
             fft
